@@ -14,7 +14,7 @@ pub struct Case {
     pub ops: Vec<Op>,
 }
 
-const SHARED: &str = "shared0w";
+pub const SHARED: &str = "shared0w";
 
 struct Stub(usize);
 impl VecEmbedder for Stub {
@@ -27,7 +27,7 @@ impl VecEmbedder for Stub {
     }
 }
 
-fn marker_of_op(i: usize) -> String {
+pub fn marker_of_op(i: usize) -> String {
     format!("vm{i:03}k")
 }
 
@@ -215,7 +215,7 @@ fn text_payload(seed: u32, words: u32) -> Payload {
     Payload::Text { seed, chars: words * 8, style: crate::gen::TextStyle::Words }
 }
 
-fn put() -> impl Strategy<Value = PutSpec> {
+pub fn put() -> impl Strategy<Value = PutSpec> {
     (
         any::<u32>(),
         prop_oneof![4 => 3u32..40, 1 => 320u32..420],
@@ -239,7 +239,7 @@ fn put() -> impl Strategy<Value = PutSpec> {
         })
 }
 
-fn upd() -> impl Strategy<Value = UpdSpec> {
+pub fn upd() -> impl Strategy<Value = UpdSpec> {
     (any::<u16>(), prop::option::weighted(0.6, (any::<u32>(), 3u32..40)), prop::option::weighted(0.4, any::<u32>()), any::<bool>(), prop::option::weighted(0.3, 0i64..20), prop_oneof![3 => Just(vec![]), 1 => Just(vec!["green".to_string()])])
         .prop_map(|(target, p, emb, new_title, new_ts, new_tags)| UpdSpec { target, payload: p.map(|(s, w)| text_payload(s, w)), emb, new_title, new_ts, new_tags })
 }
